@@ -1,6 +1,6 @@
 #!/bin/bash
 # tools/try_mutant.sh <patch.diff> <ID> [tier]   -- apply a seeded change to /repo, run the check, undo.
-P="$1"; ID="$2"; TIER="${3:-quick}"
+P="$(realpath "$1")"; ID="$2"; TIER="${3:-quick}"
 cd /repo || exit 9
 git diff --quiet || { echo "/repo not clean"; exit 9; }
 git apply "$P" || { echo "patch does not apply"; exit 9; }
